@@ -145,7 +145,7 @@ def explore(module, cls, maxsizes=(1, 2), purges=(False, True), universe=3, dept
                 if purge and arch == 'none':
                     continue
                 res['configs'] += 1
-                init = {'module': module, 'cls': cls, 'maxsize': M, 'purge': purge, 'universe': universe,
+                init = {'module': module, 'cls': cls, 'maxsize': M, 'purge': purge, 'universe': universe, 'arch0': arch,
                         'mem': {}, 'A': None if arch == 'none' else {}, 'S': None, 'stats': [0, 0, 0]}
                 if pol in ('lru', 'mru'):
                     init['queue'] = []
